@@ -235,22 +235,30 @@ def work_dispatch(_):
     return n, out
 
 
-def bodies():
+def bodies(tier="quick"):
     alpha = body_alphabet()
     out = []
     for L in range(0, 4):
         for idx in itertools.product(range(len(alpha)), repeat=L):
             out.append(idx)
+    if tier == "thorough":
+        # sequences of 4 and 5 over a sub-alphabet that keeps the collisions (repeated code, same code under 3 vendors, groups, 8-byte AVP)
+        sub = (0, 3, 4, 5, 7, 8, 10, 11)
+        for L in (4, 5):
+            for idx in itertools.product(sub, repeat=L):
+                if L == 5 and (sum(idx) + len(set(idx))) % 4:
+                    continue
+                out.append(idx)
     return out
 
 
 def work_bodies(args):
-    lo, hi, with_search = args
+    lo, hi, with_search, tier = args
     Message, MessageHeader, DefinedMessage, UndefinedMessage, commands = libs()
     alpha = body_alphabet()
     out = []
     n = 0
-    for idx in bodies()[lo:hi]:
+    for idx in bodies(tier)[lo:hi]:
         body = b"".join(alpha[i] for i in idx)
         for code, plain in ((8_000_000, False), (272, True), (283, False)):
             n += 1
@@ -284,8 +292,8 @@ def work_bodies(args):
         refs = {p: ref_find(top, p) for p in paths}
         seqs = [(p,) for p in paths]
         seqs += list(itertools.permutations(paths, 2))
-        if len(paths) <= 9:
-            seqs += list(itertools.permutations(paths, 3))
+        if len(paths) <= 9 or tier == "thorough":
+            seqs += list(itertools.permutations(paths, 3)) if len(idx) <= 3 else []
         else:
             seqs += [s for s in itertools.permutations(paths, 3) if (hash(s) + lo) % 7 == 0] if False else \
                     [s for k, s in enumerate(itertools.permutations(paths, 3)) if k % 5 == (lo + len(idx)) % 5]
@@ -362,11 +370,11 @@ def _call(job):
 def run(tier):
     rep = Report("C02", tier, "exploration")
     common.pool()
-    nb = len(bodies())
+    nb = len(bodies(tier))
     jobs = [(work_header, ("alone",)), (work_header, ("product",)), (work_dispatch, None), (work_big, None)]
     step = 12
     for lo in range(0, nb, step):
-        jobs.append((work_bodies, (lo, lo + step, True)))
+        jobs.append((work_bodies, (lo, lo + step, True, tier)))
     total = 0
     for n, vs in common.pmap(_call, jobs, chunksize=1):
         total += n
@@ -389,9 +397,9 @@ def replay(case):
         for part in ("alone", "product"):
             out += [v for v in work_header((part,))[1] if v.case.get("hdr") == case["hdr"]]
     elif "body" in case:
-        bs = bodies()
+        bs = bodies("thorough")
         i = bs.index(tuple(case["body"]))
-        out += work_bodies((i, i + 1, True))[1]
+        out += work_bodies((i, i + 1, True, "thorough"))[1]
     else:
         out += work_dispatch(None)[1] + work_big(None)[1]
     return out
